@@ -17,7 +17,7 @@ import hashlib
 from pathlib import Path
 
 RESERVED = ['K', 'KA', 'CL', 'V', 'Q', 'VSS', 'V1', 'V2', 'V3', 'V4', 'Q2', 'Q3', 'Q4',
-            'K12', 'K21', 'K13', 'K31', 'K23', 'K32', 'K24', 'K42']
+            'K12', 'K21', 'K13', 'K31', 'K23', 'K32', 'K24', 'K42', 'ALPHA', 'BETA', 'GAMMA', 'AOB']
 
 
 class TranslatorRefused(Exception):
